@@ -179,7 +179,24 @@ class Gen18:
                 nbound += 1
             uses_p.append("  <reuse%s/>" % attrs)
             uses_u.append("  " + self.inline(tid, env, rid, rcls, rsty, x, y))
-        specs = "  <specs>\n" + "\n".join("    " + self.template_xml(t) for t, (k, p) in self.templates.items() if p == "specs") + "\n  </specs>"
+        # an instance made inside <specs> (a partial application given an id): not rendered, yet it stands for the written-out
+        # element, so elements outside can take position and size from it
+        spec_inst_p = spec_inst_u = None
+        shapes_in_specs = [t for t, (k, p) in self.templates.items() if k in ("rect", "circle") and p == "specs"]
+        if shapes_in_specs and r.random() < 0.35:
+            t = r.choice(shapes_in_specs)
+            env2 = dict(w=r.randint(1, 9), h=r.randint(1, 9), lab="S", cls="sp")
+            sx = r.choice([None, 0, 4, -3, 12])
+            sy = r.choice([1, 6, -2]) if sx is not None else None
+            spec_inst_p = '<reuse id="sp0" href="#%s" w="%d" h="%d" lab="S" cls="sp"%s/>' % (t, env2["w"], env2["h"], (' x="%d" y="%d"' % (sx, sy)) if sx is not None else "")
+            spec_inst_u = self.inline(t, env2, "sp0", [], None, sx, sy)
+            ref = r.choice(['<rect id="ref0" xy="#sp0|h 2" wh="#sp0"/>', '<circle id="ref0" cxy="#sp0@br" r="{{#sp0~w}}"/>',
+                            '<rect id="ref0" xy="#sp0@bl 1 1" wh="{{#sp0~h}} 2"/>', '<line id="ref0" xy1="#sp0@tl" xy2="#sp0@br"/>'])
+            k_at = r.randint(0, len(uses_p))
+            uses_p.insert(k_at, "  " + ref)
+            uses_u.insert(k_at, "  " + ref)
+        specs = "  <specs>\n" + "\n".join(["    " + self.template_xml(t) for t, (k, p) in self.templates.items() if p == "specs"]
+                                          + (["    " + spec_inst_p] if spec_inst_p else [])) + "\n  </specs>"
         inline_t = ["  " + self.template_xml(t) for t, (k, p) in self.templates.items() if p == "inline"]
         defs_t = ["  <defs>" + self.template_xml(t) + "</defs>" for t, (k, p) in self.templates.items() if p == "defs"]
         specs_first = r.random() < 0.6
@@ -190,7 +207,8 @@ class Gen18:
         tail_p = [] if specs_first else [specs]
         # specs content must not be rendered: the twin simply has no <specs>
         P = "<svg>\n" + "\n".join(head_p + uses_p + tail_p) + "\n</svg>"
-        U = "<svg>\n" + "\n".join(pre + uses_u) + "\n</svg>"
+        specs_u = ["  <specs>\n    " + spec_inst_u + "\n  </specs>"] if spec_inst_u else []
+        U = "<svg>\n" + "\n".join((specs_u if specs_first else []) + pre + uses_u + ([] if specs_first else specs_u)) + "\n</svg>"
         # binding names: any name the documentation allows (letters, digits, underscore, not starting with a digit)
         if scheme != "plain":
             ren = {"underscore": {"w": "_w", "h": "_h", "lab": "_lab", "cls": "_cls", "n": "_n"},
@@ -204,7 +222,7 @@ class Gen18:
                 return re.sub(r"\$(w|h|lab|cls|n)\b", lambda m: "$" + ren[m.group(1)], text)
             P, U = rename(P), rename(U)
         feats = sorted({"names." + scheme} | set("template." + k for k, _ in self.templates.values()) | {"specs." + ("first" if specs_first else "last")} | ({"globals"} if glob else set())
-                       | set("placement." + pl for _, pl in self.templates.values()))
+                       | set("placement." + pl for _, pl in self.templates.values()) | ({"instance-in-specs"} if spec_inst_p else set()))
         return P, U, nbound, len(uses_p), feats
 
 
